@@ -366,3 +366,154 @@ Proof.
   intros H. unfold kendall_tau.
   destruct (Nat.eqb_spec (length o1) (length o2)); [contradiction|reflexivity].
 Qed.
+
+(* ------------------------------------------------------------------------------------------ *)
+(** * Spearman footrule *)
+
+Lemma absdiff_sym a b : absdiff a b = absdiff b a.
+Proof. unfold absdiff. lia. Qed.
+
+Lemma absdiff_zero a b : absdiff a b = 0 <-> a = b.
+Proof. unfold absdiff. lia. Qed.
+
+(* absdiff is |a - b| *)
+Lemma absdiff_spec a b : Z.of_nat (absdiff a b) = Z.abs (Z.of_nat a - Z.of_nat b).
+Proof. unfold absdiff. lia. Qed.
+
+Lemma footrule_from_sum o2 xs : NoDup xs -> forall j,
+  footrule_from o2 j xs = sum_over xs (fun x => absdiff (j + idx xs x) (idx o2 x)).
+Proof.
+  induction 1 as [|x xs Hx Hnd IH]; intros j; [reflexivity|].
+  cbn [footrule_from]. rewrite sum_over_cons, idx_head, Nat.add_0_r, IH. f_equal.
+  apply sum_over_ext_in. intros y Hy. rewrite (idx_tail y x) by (intros ->; contradiction).
+  f_equal. lia.
+Qed.
+
+(* the footrule numerator is  sum over alternatives x of |pos1 x - pos2 x| *)
+Lemma footrule_num_sum o1 o2 : NoDup o1 ->
+  footrule_num o1 o2 = sum_over o1 (fun x => absdiff (idx o1 x) (idx o2 x)).
+Proof. intros H. unfold footrule_num. rewrite footrule_from_sum by exact H. reflexivity. Qed.
+
+Lemma footrule_num_sym o1 o2 : NoDup o1 -> Permutation o1 o2 -> footrule_num o1 o2 = footrule_num o2 o1.
+Proof.
+  intros Hnd Hp. assert (Hnd2 : NoDup o2) by (eapply Permutation_NoDup; eassumption).
+  rewrite !footrule_num_sum by assumption. rewrite (sum_over_perm _ o1 o2 Hp).
+  apply sum_over_ext_in. intros x _. apply absdiff_sym.
+Qed.
+
+Lemma footrule_num_refl o : NoDup o -> footrule_num o o = 0.
+Proof.
+  intros H. rewrite footrule_num_sum by exact H. apply sum_over_zero. intros x _.
+  apply absdiff_zero. reflexivity.
+Qed.
+
+Lemma same_idx_eq o1 o2 : NoDup o1 -> Permutation o1 o2 ->
+  (forall x, In x o1 -> idx o1 x = idx o2 x) -> o1 = o2.
+Proof.
+  intros Hnd Hp H. apply (nth_ext o1 o2 0%N 0%N); [apply Permutation_length; exact Hp|].
+  intros i Hi.
+  assert (Hin : In (nth i o1 0%N) o1) by (apply nth_In; exact Hi).
+  pose proof (H _ Hin) as E. rewrite idx_nth in E by assumption.
+  rewrite E at 2. symmetry. apply nth_idx. eapply Permutation_in; eassumption.
+Qed.
+
+Lemma footrule_num_zero o1 o2 : NoDup o1 -> Permutation o1 o2 -> footrule_num o1 o2 = 0 -> o1 = o2.
+Proof.
+  intros Hnd Hp Hz. rewrite footrule_num_sum in Hz by exact Hnd.
+  apply same_idx_eq; [exact Hnd|exact Hp|].
+  intros x Hx. apply absdiff_zero. revert x Hx. apply sum_over_zero. exact Hz.
+Qed.
+
+(* the bound: |a - b| is at most the sum of the distances of a and b to the centre (n-1)/2;
+   everything is doubled to stay in the integers: |2a+1-n| + |2b+1-n| >= 2|a-b| *)
+Definition T (n : nat) : nat := sum_over (seq 0 n) (fun i => absdiff (2 * i + 1) n).
+
+Lemma absdiff_centre a b n : absdiff a b + absdiff a b <= absdiff (2 * a + 1) n + absdiff (2 * b + 1) n.
+Proof. unfold absdiff. lia. Qed.
+
+Lemma T_SS n : T (S (S n)) = T n + 2 * n + 2.
+Proof.
+  unfold T. change (seq 0 (S (S n))) with (0 :: seq 1 (S n)).
+  rewrite sum_over_cons, seq_S, sum_over_app, <- seq_shift, sum_over_map.
+  rewrite sum_over_cons, sum_over_nil.
+  rewrite (sum_over_ext_in (fun x => absdiff (2 * S x + 1) (S (S n))) (fun i => absdiff (2 * i + 1) n)).
+  - unfold absdiff. lia.
+  - intros i _. unfold absdiff. lia.
+Qed.
+
+Lemma T_bound n : 2 * T n <= n * n /\ 2 * T (S n) <= S n * S n.
+Proof.
+  induction n as [|n [A B]].
+  - split; vm_compute; lia.
+  - split; [exact B|]. rewrite T_SS. lia.
+Qed.
+
+Lemma T_le_half n : T n <= (n * n) / 2.
+Proof. apply Nat.div_le_lower_bound; [lia|]. apply T_bound. Qed.
+
+Lemma footrule_num_le_T o1 o2 : NoDup o1 -> Permutation o1 o2 -> footrule_num o1 o2 <= T (length o1).
+Proof.
+  intros Hnd Hp. assert (Hnd2 : NoDup o2) by (eapply Permutation_NoDup; eassumption).
+  rewrite footrule_num_sum by exact Hnd.
+  set (n := length o1). set (g := fun i => absdiff (2 * i + 1) n).
+  assert (H2 : sum_over o1 (fun x => absdiff (idx o1 x) (idx o2 x) + absdiff (idx o1 x) (idx o2 x))
+               <= sum_over o1 (fun x => g (idx o1 x) + g (idx o2 x))).
+  { apply sum_over_le_in. intros x _. apply absdiff_centre. }
+  rewrite !sum_over_add in H2.
+  rewrite (sum_over_perm (fun x => g (idx o2 x)) o1 o2 Hp) in H2.
+  rewrite !sum_over_idx in H2 by assumption.
+  rewrite <- (Permutation_length Hp) in H2. fold n in H2.
+  change (sum_over (seq 0 n) g) with (T n) in H2. lia.
+Qed.
+
+Lemma footrule_bound o1 o2 : NoDup o1 -> Permutation o1 o2 ->
+  footrule_num o1 o2 <= (length o1 * length o1) / 2.
+Proof.
+  intros Hnd Hp. eapply Nat.le_trans; [apply footrule_num_le_T; assumption|apply T_le_half].
+Qed.
+
+(* the bound is attained by the reversed ranking, so floor(n^2/2) is the right normaliser *)
+Lemma footrule_den_pos o : 2 <= length o -> 0 < footrule_den o.
+Proof.
+  intros H. unfold footrule_den. apply Nat.div_str_pos. split; [lia|]. nia.
+Qed.
+
+Lemma spearman_footrule_perm o1 o2 : Permutation o1 o2 ->
+  spearman_footrule o1 o2 = Ok (footrule_num o1 o2, footrule_den o1).
+Proof.
+  intros Hp. unfold spearman_footrule.
+  rewrite (proj2 (Nat.eqb_eq _ _) (Permutation_length Hp)). cbn [negb].
+  rewrite all_in_perm by exact Hp. reflexivity.
+Qed.
+
+Lemma footrule_den_perm o1 o2 : Permutation o1 o2 -> footrule_den o1 = footrule_den o2.
+Proof. intros Hp. unfold footrule_den. rewrite (Permutation_length Hp). reflexivity. Qed.
+
+Lemma footrule_sym o1 o2 : NoDup o1 -> Permutation o1 o2 -> spearman_footrule o1 o2 = spearman_footrule o2 o1.
+Proof.
+  intros Hnd Hp. rewrite spearman_footrule_perm by exact Hp.
+  rewrite spearman_footrule_perm by (symmetry; exact Hp).
+  rewrite footrule_num_sym by assumption. rewrite (footrule_den_perm o1 o2 Hp). reflexivity.
+Qed.
+
+Lemma footrule_zero_iff o1 o2 : NoDup o1 -> Permutation o1 o2 ->
+  (exists den, spearman_footrule o1 o2 = Ok (0, den)) <-> o1 = o2.
+Proof.
+  intros Hnd Hp. rewrite spearman_footrule_perm by exact Hp. split.
+  - intros [den H]. apply footrule_num_zero; [exact Hnd|exact Hp|]. congruence.
+  - intros <-. exists (footrule_den o1). rewrite footrule_num_refl by exact Hnd. reflexivity.
+Qed.
+
+Lemma footrule_range o1 o2 : NoDup o1 -> Permutation o1 o2 -> 2 <= length o1 ->
+  exists num den, spearman_footrule o1 o2 = Ok (num, den) /\ 0 < den /\ num <= den.
+Proof.
+  intros Hnd Hp Hl. exists (footrule_num o1 o2), (footrule_den o1).
+  split; [apply spearman_footrule_perm; exact Hp|].
+  split; [apply footrule_den_pos; exact Hl|]. apply footrule_bound; assumption.
+Qed.
+
+Lemma footrule_length_mismatch o1 o2 : length o1 <> length o2 -> spearman_footrule o1 o2 = Err ValueErr.
+Proof.
+  intros H. unfold spearman_footrule.
+  destruct (Nat.eqb_spec (length o1) (length o2)); [contradiction|reflexivity].
+Qed.
